@@ -163,6 +163,111 @@ impl Lib {
     /// other bound). The route is a pure function of the parameters. A density that caches anything derived
     /// from its parameters must refresh it on every route.
     pub fn new(d: D, p: &[f64]) -> Result<Lib, Fail> {
+        let mut l = Lib::reach(d, p)?;
+        // In a third of the cases one invalid value is then offered to a setter (the panic is caught): a rejected
+        // value is not applied, so the object is still the one described by `p`. (Whether the value is rejected at
+        // all is C18's clause: if it is accepted here, the valid value is simply set again.)
+        if (Hx::new().fs(p).u(77).finish() >> 8) % 3 == 0 {
+            l.offer_invalid(p);
+        }
+        Ok(l)
+    }
+
+    fn offer_invalid(&mut self, p: &[f64]) {
+        let pv = p.to_vec();
+        let which = Hx::new().fs(p).u(78).finish();
+        let neg = if which & 1 == 0 { -1.0 } else { 0.0 };
+        let accepted = catch(std::panic::AssertUnwindSafe(|| match self {
+            Lib::Normal(o) => {
+                o.set_sigma(-1.0);
+            }
+            Lib::Gamma(o) => {
+                if which & 2 == 0 {
+                    o.set_alpha(neg);
+                } else {
+                    o.set_beta(neg);
+                }
+            }
+            Lib::Beta(o) => {
+                if which & 2 == 0 {
+                    o.set_alpha(neg);
+                } else {
+                    o.set_beta(neg);
+                }
+            }
+            Lib::ChiSquared(o) => {
+                o.set_dof(0);
+            }
+            Lib::T(o) => {
+                o.set_dof(neg);
+            }
+            Lib::Pareto(o) => {
+                if which & 2 == 0 {
+                    o.set_alpha(neg);
+                } else {
+                    o.set_minval(neg);
+                }
+            }
+            Lib::Gumbel(o) => {
+                o.set_beta(neg);
+            }
+            Lib::Exponential(o) => {
+                o.set_lambda(neg);
+            }
+            Lib::Poisson(o) => {
+                o.set_lambda(neg);
+            }
+            Lib::Binomial(o) => {
+                o.set_p(if which & 2 == 0 { -0.5 } else { 1.5 });
+            }
+            Lib::Bernoulli(o) => {
+                o.set_p(if which & 2 == 0 { -0.5 } else { 1.5 });
+            }
+            Lib::Uniform(_) | Lib::DiscreteUniform(_) => {}
+        }))
+        .is_ok();
+        if accepted {
+            // not rejected (C18's business): put the valid values back so that this check judges `p`
+            let _ = catch(std::panic::AssertUnwindSafe(|| match self {
+                Lib::Normal(o) => {
+                    o.set_sigma(pv[1]);
+                }
+                Lib::Gamma(o) => {
+                    o.set_alpha(pv[0]).set_beta(pv[1]);
+                }
+                Lib::Beta(o) => {
+                    o.set_alpha(pv[0]).set_beta(pv[1]);
+                }
+                Lib::ChiSquared(o) => {
+                    o.set_dof(pv[0] as usize);
+                }
+                Lib::T(o) => {
+                    o.set_dof(pv[0]);
+                }
+                Lib::Pareto(o) => {
+                    o.set_alpha(pv[0]).set_minval(pv[1]);
+                }
+                Lib::Gumbel(o) => {
+                    o.set_beta(pv[1]);
+                }
+                Lib::Exponential(o) => {
+                    o.set_lambda(pv[0]);
+                }
+                Lib::Poisson(o) => {
+                    o.set_lambda(pv[0]);
+                }
+                Lib::Binomial(o) => {
+                    o.set_p(pv[1]);
+                }
+                Lib::Bernoulli(o) => {
+                    o.set_p(pv[0]);
+                }
+                Lib::Uniform(_) | Lib::DiscreteUniform(_) => {}
+            }));
+        }
+    }
+
+    fn reach(d: D, p: &[f64]) -> Result<Lib, Fail> {
         let route = (Hx::new().fs(p).finish() % 3) as u8;
         if route == 0 {
             return Lib::direct(d, p);
